@@ -25,6 +25,7 @@ type CaseSpec struct {
 	Weight   int    `json:"-"` // scheduling hint (heavier cases first)
 	WantModel bool  `json:"-"` // keep a model of the first path (translator validation)
 	MaxWallS  int   `json:"-"` // wall-clock budget for the whole case (seconds)
+	SkipReach bool  `json:"-"` // do not spend a (possibly nonlinear) query on the vacuity guard
 }
 
 func (c CaseSpec) ID() string {
@@ -81,6 +82,7 @@ type CaseResult struct {
 	Info       map[string]string
 	Nondet     int
 	SampleTerm string
+	certStats   SolverStats
 	SampleModel map[string]string // a model of the first completed path's condition (inside the replay ranges)
 }
 
@@ -113,6 +115,12 @@ func RunCase(p *Program, sol *Solver, spec CaseSpec) *CaseResult {
 		before.BySolver[k] = v
 	}
 	noMerge := map[*ssa.BasicBlock]bool{}
+	var certSol *Solver
+	defer func() {
+		if certSol != nil {
+			certSol.Close()
+		}
+	}()
 	work := [][]bool{nil}
 	seenViol := map[string]bool{}
 	maxWall := time.Duration(spec.MaxWallS) * time.Second
@@ -136,6 +144,7 @@ func RunCase(p *Program, sol *Solver, spec CaseSpec) *CaseResult {
 		ex := NewExec(p, sol, spec.FP, trace, noMerge)
 		ex.NoMerge = spec.NoMerge
 		ex.deadline = deadline
+		ex.SkipReach = spec.SkipReach
 		ex.trackMem = spec.TrackMem
 		if spec.MaxSteps > 0 {
 			ex.MaxSteps = spec.MaxSteps
@@ -241,7 +250,19 @@ func RunCase(p *Program, sol *Solver, spec CaseSpec) *CaseResult {
 			res.Violations = append(res.Violations, Violation{Case: spec, Kind: "frozen-write", Label: "instance-write", Detail: strings.Join(uniq(ex.frozenWrites), "; "), Model: m, Known: ex.knownFrozen, Trace: ex.decisions})
 		}
 		if spec.Cert && (out == ODone || out == ODeadlock || out == OLeak) {
+			// the certificate is a pure order query: discharge it in a clean context,
+			// free of the (possibly nonlinear) path condition of the run
+			if certSol == nil {
+				certSol, _ = NewSolver(sol.TimeoutMs)
+			}
+			if certSol != nil {
+				ex.CertSol = certSol
+			}
 			c := ex.Certificate()
+			if certSol != nil {
+				res.certStats.Add(&certSol.Stats)
+				certSol.Stats = SolverStats{BySolver: map[string]int{}}
+			}
 			res.Certs++
 			res.CertEvents += c.Events
 			res.CertEdges += c.Edges
@@ -289,6 +310,7 @@ func RunCase(p *Program, sol *Solver, spec CaseSpec) *CaseResult {
 	res.Stats.Time -= before.Time
 	res.Stats.CrossChecked -= before.CrossChecked
 	res.Stats.CrossDisagree -= before.CrossDisagree
+	res.Stats.Add(&res.certStats)
 	if res.Stats.Errors > 0 && res.Incomplete == "" {
 		res.Incomplete = "solver error lines"
 	}
